@@ -33,6 +33,7 @@ def _init_worker():
     from harness import lib_valueprop as L
 
     L.single_threaded_ort()
+    L.limit_memory()
 
 
 def _task(task):
@@ -85,6 +86,11 @@ def _run(ck: core.Check, pool):
     ck.lean(["SpoxModel.Props.C07"], audit="SpoxModel.Audit.C07")
     if ck.thorough:
         ck.leanchecker(["SpoxModel.Props.C07"])
+    try:
+        ck.driver()  # build the native driver before capping this process's memory (lake needs room)
+    except Exception:  # noqa: BLE001 - reported again where the driver is used
+        pass
+    L.limit_memory(8.0)
 
     try:
         _correspond(ck, rng)
@@ -98,6 +104,7 @@ def _run(ck: core.Check, pool):
         ck.broken("oracle", "C07 program oracle workers failed", f"{type(e).__name__}: {str(e)[:200]}")
         results = [{"failures": [], "stats": {}, "infra": "worker pool failed"} for _ in tasks]
     tot = {"valued": 0, "compared": 0, "derived_types": 0, "multi": 0, "infra": 0}
+    shrunk: dict = {}
     for task, r in zip(tasks, results):
         ck.count(("prog", json.dumps(task, sort_keys=True)))
         for k, v in r.get("stats", {}).items():
@@ -107,7 +114,9 @@ def _run(ck: core.Check, pool):
             if len(ck.notes) < 5:
                 ck.notes.append(f"program case skipped: {r['infra']}"[:200])
         for key, what in r["failures"]:
-            ck.failure(key, what, _shrink(task, key))
+            if key not in shrunk and len(shrunk) < 6:  # shrink once per distinct failure, a handful at most
+                shrunk[key] = _shrink(task, key)
+            ck.failure(key, what, shrunk.get(key, task))
     if tot["infra"] > len(tasks) // 10:
         ck.broken("oracle", "C07 program oracle starved", f"{tot['infra']} of {len(tasks)} program cases could not be judged")
     ck.sample({"program": tasks[0]["steps"][:6], "sel": tasks[0]["sel"]})
@@ -167,7 +176,7 @@ def _correspond(ck, rng):
         hist_meta.append({"steps": steps, "sel": sel, "fault": fault})
     # ---- tie H (2): node-level mapping cases
     node_cases = [c for c in N.gen_cases(rng, False)
-                  if c["node"]["kind"] in ("topk", "split", "inline") or c["node"].get("op") in ("topk", "split", "unique")]
+                  if c["node"]["kind"] in ("topk", "split", "inline", "inline0") or c["node"].get("op") in ("topk", "split", "unique")]
     def safe(fn, c):
         try:
             return fn(c)
